@@ -161,6 +161,18 @@ Section Dijkstra.
     exists gt. split; auto. intros P HP. apply H2. apply pwalk_permitted; auto.
   Qed.
 
+  (* the cost accumulated along the returned route is the label of the target *)
+  Theorem dijkstra_route_label fuel t res : target = Some t -> t <> source -> RVO fuel d source target = Ok res ->
+      exists r s gt, r_routes res = [r] /\ RST fuel d source target = Ok s /\ s_g s !! t = Some gt
+                     /\ ceq (route_cost cadd czero cfloor r) gt.
+  Proof.
+    intros Ht Hne H. rewrite <- run_vertex_link in H.
+    destruct (generic_route_label clt cadd czero cfloor alg g frontier traverse estimate init_state terminate d source target
+                c ok hv Hfront Htrav Hinfl dj_est dj_edge dj_reflect (pq_pop clt)
+                (pq_pop_none clt) (pq_pop_some clt cadd czero alg) fuel t res Ht Hne H) as [r [s [gt [H1 [H2 [H3 H4]]]]]].
+    exists r, s, gt. rewrite <- run_state_link. auto.
+  Qed.
+
   Theorem dijkstra_tree_labels fuel s : target = None -> RST fuel d source target = Ok s ->
       forall P x, permitted_walk g d ok source P x ->
         exists gx, s_g s !! x = Some gx /\ cle gx (path_cost cadd czero c P).
